@@ -158,7 +158,26 @@ pub fn describe<T: TypeSupport>(o: &mut Out, d: &str, tname: &str) {
     }
 }
 
-/// value -> dynamic data -> value.  `expect` is what the reference says must come back.
+/// Description through the `Type` trait only (also works for aliases of primitive/collection types).
+pub fn describe_t<T: dust_dds::xtypes::type_support::Type>(o: &mut Out, d: &str, tname: &str) {
+    let r = catch_unwind(AssertUnwindSafe(|| desc(&T::TYPE, 3)));
+    match r {
+        Ok(s) => o.line(&format!(
+            "{{\"d\":{},\"t\":{},\"k\":\"desc\",\"v\":{}}}",
+            esc(d),
+            esc(tname),
+            s
+        )),
+        Err(e) => o.line(&format!(
+            "{{\"d\":{},\"t\":{},\"k\":\"desc\",\"panic\":{}}}",
+            esc(d),
+            esc(tname),
+            esc(&panic_text(e))
+        )),
+    }
+}
+
+/// value -> dynamic data -> value. `expect` is what the reference says must come back.
 pub fn roundtrip<T: TypeSupport + PartialEq + Debug + Clone>(
     o: &mut Out,
     d: &str,
